@@ -127,6 +127,7 @@ pub fn cases(args: &[String]) {
             }
         }
     }
+    crate::util::wd_pause();
     println!("{}", json!({ "cases": out, "range_tried": range_tried, "range_bad": range_bad }));
 }
 
@@ -160,5 +161,6 @@ pub fn law(args: &[String]) {
         }
         if outside > 0 { found.push(json!({"lambda": lambda, "outside_unit_interval": outside})); }
     }
+    crate::util::wd_pause();
     println!("{}", json!({"found": found}));
 }
